@@ -126,6 +126,8 @@ SemanticsMatch(t, o) ==
   /\ o.macLen = MacLen(t) /\ o.tagLen = TagLen(t)
   /\ (Aead(t) => o.fixedIv = FixedIvLen(t, o.ver))
   /\ o.prf = PrfAt(t, o.ver)
+  \* TLS 1.3: later generations of the traffic secrets use the same hash (RFC 8446 7.2)
+  /\ (o.ver = 4 => o.kuPrf = PrfAt(t, 4))
   /\ CipherNameOk(t, o.sessCipherName)
   /\ (~Aead(t) => o.macName = MacName(t))
   /\ \A i \in 1..Len(o.recs) : RecordLenOk(t, o.ver, o.etm, o.recs[i][1], o.recs[i][2])
